@@ -156,6 +156,13 @@ func (r *run) lookupMethod(typ types.Type, meth *types.Func) *ssa.Function {
 }
 
 func (r *run) tick(fr *frame, instr ssa.Instruction) {
+	if r.dead {
+		panic(pathEnd{"dead"})
+	}
+	if fr.th != nil && r.cur != fr.th {
+		fmt.Fprintf(os.Stderr, "ENGINE BUG: thread %s executes while %s holds the baton at %s\n", fr.th.name, r.cur.name, fr.pos(instr))
+		panic(pathEnd{"baton"})
+	}
 	r.steps++
 	if r.steps > r.e.opts.maxSteps {
 		r.inconclusive("step budget exceeded at " + fr.pos(instr))
